@@ -308,6 +308,16 @@ def main():
             m["counts"][k] = m["counts"].get(k, 0) + v
         m["classes"].update(py_stats.get("classes", []))
 
+    # 6b. supplementary monitors (never turn a run inconclusive; only a positive finding counts)
+    if cfg.get("supplementary") and not replay:
+        sv, sstats = cfg["supplementary"](tier, seed, outdir, HARNESS, TARGET)
+        for v in sv:
+            v.setdefault("property", prop)
+            v.setdefault("seed", seed)
+            v.setdefault("tier", tier)
+            m["viols"].append(v)
+        py_stats.setdefault("summary", {})["supplementary"] = sstats
+
     # 7. verdict
     known = load_known()
     known_sigs = {k["signature"]: k for k in known if k.get("status") == "known" and k.get("property") == prop}
